@@ -38,7 +38,9 @@ def file_case(draw):
     nrec = draw(st.integers(1, 4))
     wf = draw(st.booleans())
     recs = [draw(fg.record_desc(names, nfilt, with_fluxes=wf, name='s%d' % i)) for i in range(nrec)]
-    return {'names': names, 'nfilt': nfilt, 'records': recs,
+    # "records of varying size": now and then one record lists thousands of fits (a whole model grid kept with ('A', 0))
+    big = draw(st.sampled_from([0, 0, 0, 0, 0, 0, 0, 4500, 9000])) if nfilt <= 2 else 0
+    return {'names': names, 'nfilt': nfilt, 'records': recs, 'big': big, 'big_at': draw(st.integers(0, nrec - 1)),
             'law': {'wav': [0.1, 0.55, 10.], 'chi': [3., 1., 0.1]}}
 
 
@@ -48,7 +50,18 @@ def run_case(case, ctx):
     labels = {'records=%d' % len(case['records']), 'with_fluxes' if case['records'][0]['fluxes'] is not None else 'no_fluxes'}
     with ctx.tempdir() as d:
         meta = fg.Meta(os.path.join(d, 'models'), [1. + j for j in range(nfilt)], [3.] * nfilt, case['law'])
-        infos = [fg.build_info(r, names, meta) for r in case['records']]
+        records = list(case['records'])
+        big = case.get('big', 0)
+        if big:
+            names = ['g%05d' % i for i in range(big)]
+            base = records[case['big_at']]
+            records = [dict(r, models=[m % big for m in r['models']]) for r in records]
+            records[case['big_at']] = {'source': base['source'], 'models': list(range(big)),
+                                        'chi2': [0.5 + 0.001 * ((i * 7919) % big) for i in range(big)],
+                                        'av': [0.01 * (i % 97) for i in range(big)], 'sc': [-1. + 0.002 * (i % 500) for i in range(big)],
+                                        'fluxes': None if base['fluxes'] is None else [[0.1 * j + 0.001 * i for j in range(nfilt)] for i in range(big)]}
+            labels.add('large_record')
+        infos = [fg.build_info(r, names, meta) for r in records]
         snaps = [fg.snapshot(i) for i in infos]
         full = os.path.join(d, 'full.fitinfo')
         with must_succeed('writing the fit file'):
@@ -77,9 +90,21 @@ def run_case(case, ctx):
                 fail('intact file: record %d differs in %s' % (i, diff), 'c19:intact_differs')
         cut = os.path.join(d, 'cut.fitinfo')
         nraise = nprefix = 0
-        for t in range(len(data)):
-            with open(cut, 'wb') as f:
-                f.write(data[:t])
+        if big:
+            # a file of several hundred kB: every offset of the first 3000 and last 3000 bytes and around each record
+            # boundary, every 89th offset elsewhere (counted separately; the exhaustive claim is for the small files)
+            offsets = set(range(0, min(3000, len(data)))) | set(range(max(0, len(data) - 3000), len(data))) | \
+                set(range(0, len(data), 397 if ctx.quick else 89))
+            for b in (bounds or []):
+                offsets |= set(range(max(0, b - 300), min(len(data), b + 300)))
+            offsets = sorted(offsets)
+        else:
+            offsets = range(len(data))
+        # cut progressively shorter: one copy of the file, truncated in place from the end towards the start
+        with open(cut, 'wb') as f:
+            f.write(data)
+        for t in sorted(offsets, reverse=True):
+            os.truncate(cut, t)
             complete = len(infos) if bounds is None else sum(1 for b in bounds if b <= t)
             try:
                 with quiet():
@@ -101,7 +126,7 @@ def run_case(case, ctx):
                 if diff:
                     fail('file of %d bytes cut at %d: record %d differs from the written one in %s' % (
                         len(data), t, i, diff), 'c19:wrong_record')
-        ctx.labels['offsets_evaluated'] += len(data)
+        ctx.labels['offsets_evaluated'] += len(offsets)
         ctx.labels['offsets_raise'] += nraise
         ctx.labels['offsets_prefix'] += nprefix
     return labels, len(case['records']) >= 2
